@@ -16,7 +16,7 @@ RULE = ('(a) histories of 1..12 read-side commands / library calls against a scr
         'file; csv / json / archive; strict), dist --use-db, signatures info -d / FILE, signatures create --db-params, tree, library load + query + '
         'indexing, with failing commands interleaved (bad options, mismatching signature file, missing file) — observing sha256 of *.gdb / *.gs and the '
         'directory listing before/after, every open() / h5py.File() of a database file with its mode, and every SQL statement; (b) histories of session '
-        'operations (add / delete / flush / commit / query / rollback / close) on the library\'s default session, the CLI context\'s session and the loaded '
+        'operations (add / delete / attribute change / direct SQL / flush / commit / commit through the transaction object or a begin-block / query / rollback / close; optionally after a writable session maker or session for the same file was created earlier in the process) on the library\'s default session, the CLI context\'s session and the loaded '
         'database\'s session, judged against the Lean ReadOnlySession state machine. Non-trivial = distinct history with >= 3 operations incl. a failing or a '
         'mutating one.')
 TRUSTED = ['harness/props/c18.py + Driver/C18.lean', 'recording wrappers installed by the harness process (builtins.open, h5py.File, SQLAlchemy before_cursor_execute)']
@@ -181,6 +181,12 @@ def check(ctx, case):
 		from gambit.db.sqla import file_sessionmaker
 		gdb = os.path.join(dbdir, 'ref.gdb')
 		closer = None
+		if case.get('prior') == 'writable-maker':
+			# somebody asked for a writable session maker for the same file earlier in this process (and did not use it)
+			file_sessionmaker(gdb, readonly=False)
+		elif case.get('prior') == 'writable-session':
+			ws = file_sessionmaker(gdb, readonly=False)()
+			ws.query(Taxon).count(); ws.close()
 		if case['via'] == 'default':
 			session = file_sessionmaker(gdb)()
 		elif case['via'] == 'refdb':
@@ -223,6 +229,22 @@ def check(ctx, case):
 					toks.append('flush'); session.flush(); outs.append('ok')
 				elif op == 'commit':
 					toks.append('commit'); session.commit(); outs.append('ok')
+				elif op == 'txncommit':
+					# committing through the transaction object instead of Session.commit()
+					t = session.get_transaction()
+					toks.append('beginblock' if t is None else 'txncommit')
+					try:
+						if t is None:
+							with session.begin():       # no transaction open: leaving the block commits
+								pass
+						else:
+							t.commit()
+						outs.append('ok')
+					finally:
+						try:
+							existing = session.query(Taxon).order_by(Taxon.id).all()
+						except Exception:
+							pass
 				elif op == 'query':
 					toks.append('query'); outs.append(f'rows:{session.query(Taxon).count()}')
 				elif op == 'rollback':
@@ -269,8 +291,8 @@ def run(ctx):
 		for j in range(ctx.q(150, 800)):
 			if not ctx.time_left(0.95):
 				break
-			ops = [rng.choice(['add', 'del', 'mod', 'sql', 'flush', 'commit', 'commit', 'query', 'query', 'rollback', 'close']) for _ in range(rng.randint(1, 12))]
-			sub({'kind': 'session', 'via': rng.choice(['default', 'refdb', 'cli']), 'ops': ops}, 'session-history')
+			ops = [rng.choice(['add', 'del', 'mod', 'sql', 'flush', 'commit', 'commit', 'txncommit', 'txncommit', 'query', 'query', 'rollback', 'close']) for _ in range(rng.randint(1, 12))]
+			sub({'kind': 'session', 'via': rng.choice(['default', 'refdb', 'cli']), 'ops': ops, 'prior': rng.choice([None, None, 'writable-maker', 'writable-session'])}, 'session-history')
 	finally:
 		if _w is not None:
 			_w.cleanup()
